@@ -310,7 +310,11 @@ func RunFamily(f Family, o Options) *FamilyReport {
 	outs := make([]*Outcome, len(cases))
 	var wg sync.WaitGroup
 	ch := make(chan int, 256)
-	for wk := 0; wk < o.Workers; wk++ {
+	nw := o.Workers
+	if sf, ok := f.(interface{ Serial() bool }); ok && sf.Serial() {
+		nw = 1
+	}
+	for wk := 0; wk < nw; wk++ {
 		wg.Add(1)
 		go func() {
 			defer wg.Done()
